@@ -70,6 +70,25 @@ theorem public_line_denied (w : ChatWorld) (a r : Nat) (c : Client) (cid : Optio
     w.step (.send a r cid opts msg) = (w, [mkErr c r "You are not allowed to participate in chat."]) := by
   simp [ChatWorld.step, hg, stepSend, hsend]
 
+/-- A privilege change takes effect at once: after an administrator's edit of an account, the readers
+    of public chat are judged by the account's new access for every connected client of that account
+    (and by their unchanged access for everybody else). -/
+theorem public_audience_follows_account_edit (w : ChatWorld) (login access : Bytes) :
+    let w' := (w.step (.accessEdit login access)).1
+    (w'.reg.clients.filter (fun d => accessBit d.access 9)).map (·.id) =
+      (w.reg.clients.filter (fun d => accessBit (if d.login == login then access else d.access) 9)).map (·.id) := by
+  intro w'
+  show (((w.reg.clients.map (editClient login access)).filter (fun d => accessBit d.access 9)).map (·.id)) = _
+  rw [List.filter_map, List.map_map]
+  have h1 : ((fun d : Client => accessBit d.access 9) ∘ editClient login access) =
+      (fun d => accessBit (if d.login == login then access else d.access) 9) := by
+    funext d
+    simp only [Function.comp, editClient]
+    split <;> rfl
+  have h2 : ((fun d : Client => d.id) ∘ editClient login access) = (·.id) := by
+    funext d; exact (editClient_keys login access d).1
+  rw [h1, h2]
+
 -- ------------------------------------------------------------------ private chat
 
 /-- A private line: one transaction of type 106 per member of the chat (= map entry whose connection
@@ -384,6 +403,7 @@ theorem step_replies (w : ChatWorld) (e : ChatEv) :
     | some a => ReplyOK a e.req (w.step e).2
     | none => (w.step e).2 = [] := by
   cases e with
+  | accessEdit l ac => rfl
   | login l an ac nm ic =>
     simp only [ChatEv.actor, ChatWorld.step, stepLogin]
     split <;> rfl
